@@ -683,3 +683,65 @@ fn subst_ref(g: &G, by: &G) -> G {
         _ => map_children(g, &mut |c| subst_ref(c, by)),
     }
 }
+
+/// context x recursion (C15 "inside recursion"): guarded recursive bodies over context providers/consumers
+pub fn k_ctx_rec(n: usize) -> Vec<G> {
+    let leaves = vec![Just('a'), JustCtx, RecRef(0), Any];
+    let unary = vec![u1(|a| Some(MapCtx(a))), u1(|a| Some(WithCtx('b', a))), u1(|a| Some(OrNot(a))), u1(|a| if nn(&a) { Some(RepCtxMax(a)) } else { None })];
+    let binary = vec![u2(|a, c| Some(Then(a, c))), u2(|a, c| Some(Or(a, c))), u2(|a, c| Some(ThenWithCtx(a, c))), u2(|a, c| Some(IgnoreWithCtx(a, c)))];
+    let c = Class { name: "KctxRec", leaves, unary, binary, ternary: vec![] };
+    c.upto(n)
+        .into_iter()
+        .filter(|g| g.any_node(&|x| matches!(x, RecRef(_))) && g.any_node(&|x| matches!(x, JustCtx | RepCtxMax(_))))
+        .map(|body| Rec(b(body), false))
+        .filter(|g| well_formed_rec(g, 0))
+        .collect()
+}
+
+/// hand-built context-sensitive families (C15): length-prefixed, delimiter-echo, nested / recursive
+pub fn ctx_families() -> Vec<G> {
+    let any = || b(Any);
+    let lp = |item: G| ThenWithCtx(any(), b(RepCtx(b(item))));
+    let echo_body = || Rep(b(AndIs(any(), b(Not(b(JustCtx))))), Bounds::STAR, Sink::Vec);
+    let echo = |open: G| IgnoreWithCtx(b(open), b(Then(b(echo_body()), b(JustCtx))));
+    let nested_echo = {
+        let inner = OrNot(b(echo(Just('b'))));
+        IgnoreWithCtx(any(), b(Then(b(inner), b(Then(b(echo_body()), b(JustCtx))))))
+    };
+    let rec_block = {
+        let item = Or(b(AndIs(b(RecRef(0)), b(Not(b(JustCtx))))), b(Just('c')));
+        let body = IgnoreWithCtx(b(OneOf("ab")), b(Then(b(Rep(b(item), Bounds::STAR, Sink::Vec)), b(JustCtx))));
+        Rec(b(body), false)
+    };
+    let indent_like = {
+        let deeper = Then(b(Just('b')), b(MapCtx(b(RecRef(0)))));
+        let body = Then(b(RepCtx(b(Just('a')))), b(OrNot(b(deeper))));
+        WithCtx('a', b(Rec(b(body), true)))
+    };
+    vec![
+        // length-prefixed: a token says how many items follow (a->1, b->2, c->0)
+        lp(Any),
+        lp(Just('a')),
+        // ... nested: each item is itself length-prefixed
+        lp(lp(Just('a'))),
+        Then(b(lp(Any)), b(lp(Any))),
+        Rep(b(lp(Just('a'))), Bounds::STAR, Sink::Vec),
+        Or(b(Then(b(lp(Just('a'))), b(Just('c')))), b(lp(Any))),
+        // range taken from the context
+        ThenWithCtx(any(), b(Then(b(RepCtxMax(b(Just('a')))), b(Rep(any(), Bounds::STAR, Sink::Count))))),
+        // try_configure: context 'c' is a configuration error
+        ThenWithCtx(any(), b(TryRepCtx(b(Just('a'))))),
+        Or(b(ThenWithCtx(any(), b(TryRepCtx(b(Just('a')))))), b(Rep(any(), Bounds::STAR, Sink::Count))),
+        // delimiter-echo (raw-string like): the opening token must be echoed to close
+        IgnoreWithCtx(any(), b(Then(b(echo_body()), b(JustCtx)))),
+        Rep(b(IgnoreWithCtx(any(), b(Then(b(echo_body()), b(JustCtx))))), Bounds::STAR, Sink::Vec),
+        // ... nested providers: the inner one shadows the outer one, which is visible again afterwards
+        nested_echo,
+        // recursion under a context: block = open-token, then (block | non-open tokens)*, then the same token
+        rec_block,
+        // indentation-like: the context counts the expected repetitions at each level, map_ctx goes one level deeper
+        indent_like,
+        // a context observed after backtracking out of a provider
+        Or(b(ThenWithCtx(b(Just('a')), b(Then(b(JustCtx), b(Just('c')))))), b(WithCtx('b', b(Then(b(Any), b(Rep(b(JustCtx), Bounds::STAR, Sink::Count))))))),
+    ]
+}
